@@ -376,8 +376,27 @@ func (e *Engine) canon(st *State) [16]byte {
 		id := c.queue[0]
 		c.queue = c.queue[1:]
 		c.object(st.obj(id))
-		if st.Shadow != nil {
+		if c.e.Cfg.Race {
 			c.shadow(id)
+		}
+	}
+	if e.Cfg.Race {
+		for _, v := range st.SyncVC[atomicSectionKey] {
+			c.i32(v)
+		}
+		for _, v := range st.DoneVC {
+			c.i32(v)
+		}
+		// drop monitor state of unreachable objects
+		for k := range st.Shadow {
+			if k.Obj > 0 && (int(k.Obj) >= len(c.num) || c.num[k.Obj] == 0) {
+				delete(st.Shadow, k)
+			}
+		}
+		for k := range st.SyncVC {
+			if k.Obj > 0 && (int(k.Obj) >= len(c.num) || c.num[k.Obj] == 0) {
+				delete(st.SyncVC, k)
+			}
 		}
 	}
 	// garbage-collect unreachable objects (keeps clones cheap)
